@@ -40,7 +40,7 @@ Proof. vm_compute. reflexivity. Qed.
 
     [limit_on c]: DisableMaxBufferSize is false and MaxBufferSize >= 0; [the_limit c] is
     MaxBufferSize, 1e6 when left at 0.  Transports: POST with Content-Length, chunked POST (size not
-    declared), WebSocket, polling GET response.  Sizes are wire bytes, any [Z]. *)
+    declared), WebSocket, polling GET response, WebTransport.  Sizes are wire bytes, any [Z]. *)
 
 (** The OPEN packet announces exactly the limit the server enforces; 0 when it is disabled. *)
 Theorem C13_announced_is_limit : forall c,
@@ -66,7 +66,7 @@ Theorem C13_over_limit_rejected_and_closed : forall c t size,
   limit_on c -> (the_limit c < size)%Z ->
   let o := decide c C2S t size in
   o_accept o = false /\ o_closed o = true /\
-  (t <> WS -> o_status o = 413%Z) /\ (t = PostCL -> o_pulled o = 0%Z).
+  (t <> WS -> t <> WT -> o_status o = 413%Z) /\ (t = PostCL \/ t = WT -> o_pulled o = 0%Z).
 Proof. exact over_limit_rejected_and_closed. Qed.
 
 (** Every message within the limit announced in the handshake is accepted, in both directions, on
@@ -172,8 +172,8 @@ Proof. exact model_satisfies_oracle. Qed.
 Example C13_limits_example :
   let c := mkCfg 100 false in
   map (fun t => (o_accept (decide c C2S t 100), o_accept (decide c C2S t 101), o_pulled (decide c C2S t 101)))
-      [PostCL; PostChunked; WS]
-  = [(true, false, 0%Z); (true, false, 101%Z); (true, false, 101%Z)]
+      [PostCL; PostChunked; WS; WT]
+  = [(true, false, 0%Z); (true, false, 101%Z); (true, false, 101%Z); (true, false, 0%Z)]
   /\ o_accept (decide (mkCfg 0 false) S2C WS 40000) = true
   /\ limit_on c /\ the_limit c = 100%Z.
 Proof. vm_compute. repeat split; congruence. Qed.
